@@ -600,6 +600,10 @@ class Exec:
             pass
         if isinstance(st, ast.For):
             it = self.ev(st.iter, env)
+            if isinstance(it, list) and it and all(hasattr(x, 'sym_len') for x in it if not isinstance(x, (int, str))) and any(hasattr(x, 'sym_len') for x in it):
+                raise Unsupported(f'loop {key} iterates over a sequence of symbolic length and has no invariant')
+            if hasattr(it, 'sym_len'):
+                raise Unsupported(f'loop {key} iterates over a sequence of symbolic length and has no invariant')
             items = self.iterate(it)
             for item in items:
                 self.assign(st.target, item, env)
@@ -745,6 +749,10 @@ class Exec:
                 spec = self.ev(p.format_spec, env) if p.format_spec is not None else None
                 if isinstance(spec, FStr):
                     spec = ''.join(x if isinstance(x, str) else str(x[0]) for x in spec.parts) if all(isinstance(x, str) or isinstance(x[0], (int, str)) for x in spec.parts) else spec
+                if spec not in (None, '') and isinstance(v, (Arr, np.ndarray)) and v.ndim >= 1:
+                    raise SymRaise('TypeError', 'unsupported format string passed to numpy.ndarray.__format__')
+                if spec not in (None, '') and (v is None or isinstance(v, (list, tuple, dict))):
+                    raise SymRaise('TypeError', 'unsupported format string passed to __format__')
                 if spec is None and isinstance(v, (str, int)) and not isinstance(v, bool) and p.conversion == -1:
                     parts.append(str(v))
                 else:
